@@ -95,8 +95,36 @@ def convert(t):
     else:
         raise SymPyException("Unable to convert " + str(t))
 
+def get_denominators(t):
+    """SymPy forms of the divisors occurring in t that are not non-zero constants.
+
+    In the HOL library x / 0 = 0, while SymPy simplifies as if divisors were never
+    zero (x / x becomes 1). A goal can be handed to SymPy only when each of the
+    returned expressions is known to be non-zero.
+
+    """
+    res = []
+    def rec(t):
+        if t.is_number():
+            return
+        if t.is_divides():
+            d = convert(t.arg)
+            if len(d.free_symbols) > 0 or d.is_zero is not False:
+                res.append(d)
+        if t.is_comb():
+            rec(t.fun)
+            rec(t.arg)
+    rec(t)
+    return res
+
 def solve_goal(goal):
     """Attempt to solve goal using sympy."""
+    try:
+        if len(get_denominators(goal)) > 0:
+            return False
+    except SymPyException:
+        return False
+
     if goal.is_not() and goal.arg.is_equals():
         try:
             lhs, rhs = convert(goal.arg.lhs), convert(goal.arg.rhs)
@@ -142,7 +170,15 @@ def solve_with_interval(goal, cond):
 
     var = convert(cond.arg1)
     interval = convert(cond.arg)
-    
+
+    # Every divisor must be non-zero on the whole interval.
+    try:
+        for d in get_denominators(goal):
+            if d.free_symbols != {var} or solveset_wrapper(d, var, interval) != sympy.EmptySet:
+                return False
+    except (SymPyException, TypeError, NotImplementedError, RecursionError):
+        return False
+
     if goal.is_not() and goal.arg.is_equals():
         try:
             sympy_goal = convert(goal.arg.arg1) - convert(goal.arg.arg)
